@@ -424,3 +424,13 @@ Theorem C03_preload_keeps_shuffle_order :
   shuffled w' = shuffled w /\ pending w' = Some x /\ current w' = Some c /\ World.tl w' = World.tl w.
 Proof. exact preload_keeps_order. Qed.
 Print Assumptions C03_preload_keeps_shuffle_order.
+
+(* switching random on always draws a complete new order over the whole tracklist (for every
+   oracle: some permutation of it), whatever was left of an earlier order *)
+Theorem C03_set_random_draws_full_order :
+  forall shuf f w,
+  let w' := snd (run_op shuf f (SetMode 1 true) w) in
+  shuffled w' = shuf (seed w) (World.tl w) /\ random w' = true /\ World.tl w' = World.tl w
+  /\ current w' = current w /\ pstate w' = pstate w /\ seed w' = seed w + 1.
+Proof. exact set_random_draws_full_order. Qed.
+Print Assumptions C03_set_random_draws_full_order.
